@@ -24,15 +24,7 @@ FUNCS = [TS + '.' + m for m in ('add', '_write_trajectory', 'merge', '_check_mer
 ROW = z3.Function('row_content', z3.IntSort(), z3.IntSort())
 
 
-class FieldedTraj(TrajRec):
-    """TrajRec whose field values can be asked for (a required value may be missing)."""
-
-    def py_getattr(self, I, name):
-        if name in FieldSetStub.FIELDS:
-            if name == 'f_scalar' and self.missing_required:
-                return None
-            return 'value-of-' + name
-        return super().py_getattr(I, name)
+FieldedTraj = TrajRec
 
 
 @unit('C10', 'add.rejections-leave-the-store-unchanged', FUNCS, replay='contracts.C10:replay_add')
